@@ -82,6 +82,23 @@ def powNat (x : F) : Nat → F
   | 0 => 1
   | n + 1 => powNat x n * x
 
+/-- `slice.chunks(cs)` (`cs > 0`): consecutive pieces of `cs` elements, the last one possibly shorter;
+`fuel` bounds the number of pieces (the length of the slice is always enough). -/
+def chunksOf (cs : Nat) : Nat → List F → List (List F)
+  | 0, _ => []
+  | fuel + 1, l => if l.isEmpty then [] else l.take cs :: chunksOf cs fuel (l.drop cs)
+
+/-- `arithmetic.rs: eval_polynomial` as written, for a rayon pool of `t` threads: serial Horner when
+`n·2 < t`; otherwise the coefficients are cut into chunks of `⌈n/t⌉`, `parts` has `t` slots and is
+`zip`ped with the chunks (surplus chunks would be dropped), slot `i` receives
+`evaluate(chunkᵢ)·x^(i·chunk_size)`, and the slots are summed. -/
+def evalPolyThreads (t : Nat) (p : List F) (x : F) : F :=
+  let n := p.length
+  if n * 2 < t then evalPoly p x else
+  let cs := (n + t - 1) / t
+  let parts := ((chunksOf cs n p).take t).zipIdx.map (fun ci => evalPoly ci.1 x * powNat x (ci.2 * cs))
+  parts.foldl (fun acc c => acc + c) 0
+
 /-- What `multi_open` computes (the proof is `commit fPoly`, `qEvals`, `commit piPoly`). -/
 structure ProverOut (F : Type) where
   qPolys : List (List F)
